@@ -414,7 +414,8 @@ fn configs(thorough: bool) -> Vec<(Cfg, usize)> {
             (c("concurrent", 2, 2, 4), 3),
             (c("seeded", 2, 2, 4), 4),
             (c("dueling", 2, 0, 2), 3),
-            (c("phased", 3, 0, 1), 3),
+            (c("phased", 2, 0, 1), 3),
+            (c("phased", 3, 0, 1), 2),
             (c("phased_post", 1, 0, 1), 3),
             (c("phased_post", 2, 0, 2), 2),
         ]
